@@ -82,3 +82,59 @@ def fault_catalogue(kind, method):
             seen.add(f)
             out.append(f)
     return out
+
+
+def single_fault_specs(tag, cert, positions, tier, seed, attempts=1, pre_modes=("none", "pair"), reuse_modes=(False, True),
+                       quick_stride=7, extra=None):
+    """Every request position x every fault of the catalogue x pre-existing pair x kp_reuse.
+    quick: a rotating 1/quick_stride sample that still covers every (position, fault) pair at least once
+    across the pre/reuse grid; thorough: everything."""
+    import flowcheck
+    specs = []
+    n = 0
+    for pre in pre_modes:
+        for reuse in reuse_modes:
+            c = dict(cert)
+            c["kp_reuse"] = reuse
+            for (kind, nth, m) in positions:
+                for f in fault_catalogue(kind, m):
+                    n += 1
+                    if tier != "thorough" and (n + seed) % quick_stride != 0:
+                        continue
+                    rep = 1 if not f.startswith("acme:") else (1 + (n % 3))
+                    sp = dict(tag="%s/s%04d" % (tag, len(specs)), certs=[c], attempts=attempts,
+                              endpoints={"A": {"script": [{"kind": kind, "nth": nth, "fault": f, "repeat": rep}]}},
+                              meta={"family": "single fault", "kind": kind, "nth": nth, "fault": f, "repeat": rep, "pre": pre, "kp_reuse": reuse})
+                    steps = []
+                    if pre != "none":
+                        steps.append(("call", flowcheck.install_pair(c, pre)))
+                    steps.append(("run", {}))
+                    sp["steps"] = steps
+                    if extra:
+                        sp.update(extra)
+                    specs.append(flowcheck.prepare(sp))
+    return specs
+
+
+def multi_fault_specs(tag, cert, positions, count, seed, attempts=3, pre_modes=("none", "pair")):
+    import flowcheck
+    rng = random.Random(seed)
+    specs = []
+    for i in range(count):
+        c = dict(cert)
+        c["kp_reuse"] = rng.random() < 0.5
+        script = []
+        for _ in range(rng.randint(2, 4)):
+            kind, nth, m = rng.choice(positions)
+            f = rng.choice(fault_catalogue(kind, m))
+            script.append({"kind": kind, "nth": nth + rng.choice([0, 0, 1, 2]), "fault": f, "repeat": rng.randint(1, 3)})
+        pre = rng.choice(pre_modes)
+        sp = dict(tag="%s/m%04d" % (tag, i), certs=[c], attempts=attempts, endpoints={"A": {"script": script}},
+                  meta={"family": "multi fault", "script": script, "pre": pre, "kp_reuse": c["kp_reuse"]})
+        steps = []
+        if pre != "none":
+            steps.append(("call", flowcheck.install_pair(c, pre)))
+        steps.append(("run", {}))
+        sp["steps"] = steps
+        specs.append(flowcheck.prepare(sp))
+    return specs
